@@ -59,6 +59,12 @@ func (w *Workspace) Initialize() error {
 	}
 	w.rootJournalPath = rootPath
 
+	// Root selection by include graph fills both graphs with unresolved edges of every
+	// journal file in the directory, members or not. From here on the graphs hold the
+	// resolved edges of indexed files only.
+	w.includeGraph = make(map[string][]string)
+	w.reverseGraph = make(map[string][]string)
+
 	if rootPath != "" {
 		resolved, errs := w.loader.Load(rootPath)
 		w.resolved = resolved
